@@ -228,10 +228,19 @@ Qed.
 
 (* ---------- one line ---------- *)
 
+Definition tabs_to (W : Z) (p : parts) : str := tabs ((W - w0 p / 8 * 8) / 8).
+(* tabWidthSlice(leadingComment, varnameOp, space, value) *)
+Definition width_with (p : parts) (space : str) : Z := twa0 (twa0 (w0 p) space) (val p).
+(* the line fits into 72 columns (with at least one space) and would not after the alignment *)
+Definition blockedb (W : Z) (p : parts) : bool :=
+  (width_with p (if is_nil (sbv p) then [SP] else sbv p) <=? 72) && (72 <? width_with p (tabs_to W p)).
+Definition keeps_tabs (p : parts) : bool := negb (is_nil (sbv p)) && all_tabs (sbv p).
+
 Definition new_sbv (W : Z) (p : parts) : str :=
   if W <=? 0 then sbv p
   else if W <=? w0 p then (if isCanonicalInitial p W then sbv p else [SP])
-  else tabs ((W - w0 p / 8 * 8) / 8).
+  else if blockedb W p then (if keeps_tabs p then sbv p else [SP])
+  else tabs_to W p.
 Definition aligned (W : Z) (p : parts) : parts := set_sbv p (new_sbv W p).
 
 (* the info that realign leaves behind for a single line *)
@@ -267,14 +276,12 @@ Proof.
   destruct (Z.eqb_spec k 0); lia.
 Qed.
 
-Lemma aligned_reaches W p : 0 < W -> W mod 8 = 0 -> w0 p < W -> valueColumn (aligned W p) = W.
+Lemma tabs_to_reaches W p : 0 < W -> W mod 8 = 0 -> w0 p < W ->
+  twa0 (w0 p) (tabs_to W p) = W /\ 0 < (W - w0 p / 8 * 8) / 8.
 Proof.
   intros HW Hm Hlt. pose proof (w0_nonneg p) as H0.
-  unfold aligned, valueColumn, new_sbv. cbn [sbv set_sbv].
-  destruct (Z.leb_spec W 0); [lia|]. fold (w0 p) in *. destruct (Z.leb_spec W (w0 p)); [lia|].
-  destruct (alignmentToWidths_tabs (w0 p) W ltac:(lia) Hm) as [_ K].
-  change (spaceBeforeValueColumn (set_sbv p (tabs ((W - w0 p / 8 * 8) / 8)))) with (w0 p).
-  rewrite twa0_tabs by exact K.
+  destruct (alignmentToWidths_tabs (w0 p) W ltac:(lia) Hm) as [_ K]. split; [|exact K].
+  unfold tabs_to. rewrite twa0_tabs by exact K.
   pose proof (Z.div_mod (w0 p) 8 ltac:(lia)). pose proof (Z.mod_pos_bound (w0 p) 8 ltac:(lia)).
   pose proof (Z.div_mod W 8 ltac:(lia)).
   replace ((W - w0 p / 8 * 8) / 8) with (W / 8 - w0 p / 8).
@@ -282,10 +289,28 @@ Proof.
   - replace (W - w0 p / 8 * 8) with (W + (- (w0 p / 8)) * 8) by lia. rewrite Z.div_add; lia.
 Qed.
 
+Lemma new_sbv_tabs W p : 0 < W -> w0 p < W -> blockedb W p = false -> new_sbv W p = tabs_to W p.
+Proof.
+  intros HW Hlt B. unfold new_sbv. destruct (Z.leb_spec W 0); [lia|].
+  destruct (Z.leb_spec W (w0 p)); [lia|]. rewrite B. reflexivity.
+Qed.
+
+Lemma aligned_reaches W p : 0 < W -> W mod 8 = 0 -> w0 p < W -> blockedb W p = false ->
+  valueColumn (aligned W p) = W.
+Proof.
+  intros HW Hm Hlt B. unfold aligned, valueColumn. cbn [sbv set_sbv].
+  rewrite new_sbv_tabs by assumption.
+  change (spaceBeforeValueColumn (set_sbv p (tabs_to W p))) with (w0 p).
+  apply tabs_to_reaches; assumption.
+Qed.
+
 Lemma w0_aligned W p : w0 (aligned W p) = w0 p.
 Proof. reflexivity. Qed.
 
 (* alignValueSingle, fully characterised *)
+Lemma tabs_not_sp k : 0 < k -> str_eqb (tabs k) [SP] = false.
+Proof. intro H. unfold tabs. destruct (Z.to_nat k) eqn:E; [lia|reflexivity]. Qed.
+
 Lemma alignValueSingle_spec p W : 0 < W -> W mod 8 = 0 ->
   alignValueSingle (mk_info (parts_string p) p) W = Ok (align_info W p).
 Proof.
@@ -311,15 +336,25 @@ Proof.
     rewrite A. cbn [lift bind is_nil andb]. unfold align_info, aligned. rewrite NS.
     destruct (isCanonicalInitial p W) eqn:C.
     + rewrite str_eqb_refl. reflexivity.
-    + destruct (str_eqb [SP] (sbv p)) eqn:Q; [reflexivity|]. apply REPL, Q.
-  - assert (NS : new_sbv W p = tabs ((W - w0 p / 8 * 8) / 8)).
+    + cbv zeta. rewrite str_eqb_refl. cbn [negb andb].
+      destruct (str_eqb [SP] (sbv p)) eqn:Q; [reflexivity|]. apply REPL, Q.
+  - destruct (tabs_to_reaches W p HW Hm Hgt) as [R K].
+    destruct (alignmentToWidths_tabs (w0 p) W ltac:(lia) Hm) as [A _].
+    rewrite A. cbn [lift bind]. fold (tabs_to W p).
+    assert (NN : is_nil (tabs_to W p) = false).
+    { unfold tabs_to, tabs. destruct (Z.to_nat ((W - w0 p / 8 * 8) / 8)) eqn:E; [lia|reflexivity]. }
+    rewrite NN. cbn [andb]. cbv zeta.
+    rewrite (tabs_not_sp _ K : str_eqb (tabs_to W p) [SP] = false). cbn [negb andb].
+    fold (width_with p (if is_nil (sbv p) then [SP] else sbv p)) (width_with p (tabs_to W p)).
+    fold (blockedb W p). fold (keeps_tabs p).
+    assert (NS : new_sbv W p = if blockedb W p then (if keeps_tabs p then sbv p else [SP]) else tabs_to W p).
     { unfold new_sbv. destruct (Z.leb_spec W 0); [lia|]. destruct (Z.leb_spec W (w0 p)); [lia|reflexivity]. }
-    destruct (alignmentToWidths_tabs (w0 p) W ltac:(lia) Hm) as [A K].
-    rewrite A. cbn [lift bind].
-    assert (NN : is_nil (tabs ((W - w0 p / 8 * 8) / 8)) = false).
-    { unfold tabs. destruct (Z.to_nat ((W - w0 p / 8 * 8) / 8)) eqn:E; [lia|reflexivity]. }
-    rewrite NN. cbn [andb]. unfold align_info, aligned. rewrite NS.
-    destruct (str_eqb (tabs ((W - w0 p / 8 * 8) / 8)) (sbv p)) eqn:Q; [reflexivity|]. apply REPL, Q.
+    unfold align_info, aligned. rewrite NS.
+    destruct (blockedb W p); cbn [andb].
+    + destruct (keeps_tabs p).
+      * rewrite str_eqb_refl. reflexivity.
+      * destruct (str_eqb [SP] (sbv p)) eqn:Q; [reflexivity|]. apply REPL, Q.
+    + destruct (str_eqb (tabs_to W p) (sbv p)) eqn:Q; [reflexivity|]. apply REPL, Q.
 Qed.
 
 Lemma align_info_ps W p : ps (align_info W p) = aligned W p.
@@ -429,8 +464,12 @@ Proof.
     destruct (str_eqb (sbv p) [SP] && (W <? valueColumn p)) eqn:Q.
     + apply andb_true_iff in Q as [Q _]. apply str_eqb_spec in Q. right; exact Q.
     + left. split; assumption.
-  - destruct (alignmentToWidths_tabs (w0 p) W ltac:(lia) Hm) as [_ K].
-    left. split; [|apply all_tabs_tabs]. unfold tabs. destruct (Z.to_nat _) eqn:E; [lia|discriminate].
+  - destruct (blockedb W p).
+    + destruct (keeps_tabs p) eqn:KT; [|right; reflexivity].
+      unfold keeps_tabs in KT. apply andb_true_iff in KT as [K1 K2].
+      left. split; [|exact K2]. apply is_nil_false. destruct (is_nil (sbv p)); [discriminate|reflexivity].
+    + destruct (tabs_to_reaches W p HW Hm ltac:(lia)) as [_ K].
+      left. split; [|apply all_tabs_tabs]. unfold tabs_to, tabs. destruct (Z.to_nat _) eqn:E; [lia|discriminate].
 Qed.
 
 Theorem aligned_canonical para para' :
@@ -462,6 +501,23 @@ Qed.
 Lemma w0_le_valueColumn p : w0 p <= valueColumn p.
 Proof. unfold valueColumn, w0, twa0. apply twa_ge. Qed.
 
+Lemma twa_ge_succ s w : s <> [] -> w + 1 <= twa w 0 s.
+Proof.
+  destruct s as [|c s]; [congruence|]. intros _. simpl. destruct (c =? TAB)%N.
+  - pose proof (twa_ge s (w / 8 * 8 + 8) 0%nat).
+    pose proof (Z.div_mod w 8 ltac:(lia)). pose proof (Z.mod_pos_bound w 8 ltac:(lia)). lia.
+  - pose proof (twa_ge s (w + 1) (pred (rune_size c s))). lia.
+Qed.
+
+Lemma width_with_mono p s1 s2 : twa0 (w0 p) s1 <= twa0 (w0 p) s2 -> width_with p s1 <= width_with p s2.
+Proof. intro H. unfold width_with, twa0 in *. apply twa_mono, H. Qed.
+
+Lemma width_with_sp_le p : sbv p <> [] -> width_with p [SP] <= width_with p (sbv p).
+Proof.
+  intro H. apply width_with_mono. unfold twa0. simpl twa at 1.
+  pose proof (twa_ge_succ (sbv p) (w0 p) H). lia.
+Qed.
+
 Lemma new_sbv_idem W p : 0 <= W -> W mod 8 = 0 -> new_sbv W (aligned W p) = new_sbv W p.
 Proof.
   intros HW Hm. unfold new_sbv at 1. rewrite w0_aligned.
@@ -479,7 +535,34 @@ Proof.
           unfold twa0. simpl. lia. }
         destruct (Z.ltb_spec W (valueColumn (set_sbv p [SP]))); [reflexivity|lia]. }
       rewrite C2. reflexivity.
-  - unfold new_sbv. destruct (Z.leb_spec W 0); [lia|]. destruct (Z.leb_spec W (w0 p)); [lia|]. reflexivity.
+  - assert (E : new_sbv W p = if blockedb W p then (if keeps_tabs p then sbv p else [SP]) else tabs_to W p).
+    { unfold new_sbv. destruct (Z.leb_spec W 0); [lia|]. destruct (Z.leb_spec W (w0 p)); [lia|reflexivity]. }
+    destruct (tabs_to_reaches W p Hp Hm Hgt) as [R K].
+    change (tabs_to W (aligned W p)) with (tabs_to W p).
+    destruct (blockedb W p) eqn:B.
+    + destruct (keeps_tabs p) eqn:KT.
+      * unfold aligned. rewrite E, set_sbv_same, B, KT. reflexivity.
+      * (* the line got a single space: it is blocked again and has no tabs *)
+        unfold aligned. rewrite E.
+        assert (B2 : blockedb W (set_sbv p [SP]) = true).
+        { unfold blockedb in *. cbn [sbv set_sbv is_nil].
+          change (tabs_to W (set_sbv p [SP])) with (tabs_to W p).
+          change (width_with (set_sbv p [SP])) with (width_with p).
+          apply andb_true_iff in B as [B1 B2]. rewrite B2, andb_true_r.
+          destruct (is_nil (sbv p)) eqn:Nl; [exact B1|].
+          apply is_nil_false in Nl. pose proof (width_with_sp_le p Nl). lia. }
+        rewrite B2. reflexivity.
+    + (* aligned with tabs: it now stands at W, not blocked *)
+      unfold aligned. rewrite E.
+      assert (B2 : blockedb W (set_sbv p (tabs_to W p)) = false).
+      { unfold blockedb. cbn [sbv set_sbv].
+        change (tabs_to W (set_sbv p (tabs_to W p))) with (tabs_to W p).
+        change (width_with (set_sbv p (tabs_to W p))) with (width_with p).
+        assert (NN : is_nil (tabs_to W p) = false).
+        { unfold tabs_to, tabs. destruct (Z.to_nat ((W - w0 p / 8 * 8) / 8)) eqn:E2; [lia|reflexivity]. }
+        rewrite NN. destruct (Z.leb_spec (width_with p (tabs_to W p)) 72); [|reflexivity].
+        destruct (Z.ltb_spec 72 (width_with p (tabs_to W p))); [lia|reflexivity]. }
+      rewrite B2. reflexivity.
 Qed.
 
 Lemma aligned_idem W p : 0 <= W -> W mod 8 = 0 -> aligned W (aligned W p) = aligned W p.
@@ -501,8 +584,38 @@ Proof.
   assert (NS : has_nl (new_sbv W p) = false).
   { unfold new_sbv. destruct (W <=? 0); [exact N3|]. destruct (W <=? w0 p).
     - destruct (isCanonicalInitial p W); [exact N3|reflexivity].
-    - unfold tabs, has_nl. induction (Z.to_nat _); simpl; auto. }
+    - destruct (blockedb W p); [destruct (keeps_tabs p); [exact N3|reflexivity]|].
+      unfold tabs_to, tabs, has_nl. induction (Z.to_nat _); simpl; auto. }
   rewrite NS. reflexivity.
+Qed.
+
+(* the fold of spaceWidths: bounds and attainment *)
+Lemma spaceWidths_bounds out l : forall acc,
+  let r := fold_left (sw_step out) l acc in
+  fst r <= fst acc /\ snd acc <= snd r /\
+  (forall p, In p l -> excluded out p = false -> fst r <= valueColumn p <= snd r).
+Proof.
+  induction l as [|q l IH]; intro acc; simpl.
+  - split; [lia|]. split; [lia|]. intros ? [].
+  - destruct (IH (sw_step out acc q)) as (A & B & C).
+    assert (S : fst (sw_step out acc q) <= fst acc /\ snd acc <= snd (sw_step out acc q) /\
+                (excluded out q = false -> fst (sw_step out acc q) <= valueColumn q <= snd (sw_step out acc q))).
+    { unfold sw_step. destruct (excluded out q); cbn [fst snd]; [repeat split; try lia; discriminate|].
+      destruct (Z.ltb_spec (valueColumn q) (fst acc)); destruct (Z.ltb_spec (snd acc) (valueColumn q)); lia. }
+    destruct S as (S1 & S2 & S3).
+    split; [lia|]. split; [lia|]. intros p [<-|Hp] X; [specialize (S3 X); lia|apply C; assumption].
+Qed.
+
+Lemma spaceWidths_attained out l : forall acc,
+  let r := fold_left (sw_step out) l acc in
+  fst r = fst acc \/ exists p, In p l /\ excluded out p = false /\ fst r = valueColumn p.
+Proof.
+  induction l as [|q l IH]; intro acc; simpl; [left; reflexivity|].
+  destruct (IH (sw_step out acc q)) as [E|(p & Hp & X & E)].
+  - rewrite E. unfold sw_step. destruct (excluded out q) eqn:X; [left; reflexivity|]. cbn [fst].
+    destruct (Z.ltb_spec (valueColumn q) (fst acc)); [|left; reflexivity].
+    right. exists q. auto.
+  - right. exists p. auto.
 Qed.
 
 Lemma optimalWidth_settled para : Forall single_ok para -> Forall small para -> para <> [] ->
@@ -513,62 +626,106 @@ Proof.
   destruct (varnameOpWidths para) as [mvow out] eqn:EV.
   pose proof (conts_of para S) as CS.
   destruct (optimalWidth_facts para mvow out CS NE EV) as (W0 & Wm & WM & _). fold W in W0, Wm, WM.
-  destruct (varnameOpWidths_facts para mvow out CS NE EV) as (M0 & O0 & F1 & (pe & Hpe & Xpe) & _ & _).
+  destruct (varnameOpWidths_facts para mvow out CS NE EV) as (M0 & O0 & F1 & (pe & Hpe & Xpe) & (pm & Hpm & Em) & _).
   destruct (Z.eq_dec W 0) as [Z0|NZ].
-  { (* nothing was aligned *)
-    rewrite Z0. rewrite (map_ext _ (fun p => p) aligned_zero), map_id. exact Z0. }
+  { rewrite Z0. rewrite (map_ext _ (fun p => p) aligned_zero), map_id. exact Z0. }
   assert (WP : 0 < W) by lia. specialize (WM WP).
-  rewrite optimalWidth_unfold.
   assert (EV' : varnameOpWidths (map (aligned W) para) = (mvow, out)).
   { rewrite varnameOpWidths_ext; [exact EV|]. intro p. repeat split. }
-  rewrite EV'. cbn [fst snd].
+  (* every line that counts is narrower than W before its value *)
+  assert (INC : forall p, In p para -> excluded out p = false -> w0 p < W).
+  { intros p Hp X. destruct (F1 p Hp) as [Le|[Op Eo]]; [lia|].
+    exfalso. unfold excluded in X. apply orb_false_iff in X as [_ X]. fold (w0 p) in X.
+    destruct (Z.ltb_spec 0 out); [|lia]. destruct (Z.eqb_spec (w0 p) out); [discriminate|lia]. }
+  assert (XPE : excluded out pe = false).
+  { unfold excluded. rewrite Forall_forall in CS. rewrite (single_not_ec pe (CS pe Hpe)). cbn [orb]. fold (w0 pe).
+    destruct (Z.ltb_spec 0 out); [|reflexivity]. destruct (Z.eqb_spec (w0 pe) out); [tauto|reflexivity]. }
+  assert (XA : forall p, excluded out (aligned W p) = excluded out p) by reflexivity.
+  (* after the pass no value of a counting line starts to the right of W *)
+  assert (COL : forall p, In p para -> excluded out p = false -> valueColumn (aligned W p) <= W).
+  { intros p Hp X. pose proof (INC p Hp X) as Hlt. pose proof (w0_nonneg p).
+    destruct (tabs_to_reaches W p WP Wm Hlt) as [R K].
+    destruct (blockedb W p) eqn:B; [|rewrite aligned_reaches by assumption; lia].
+    assert (E : new_sbv W p = if keeps_tabs p then sbv p else [SP]).
+    { unfold new_sbv. destruct (Z.leb_spec W 0); [lia|]. destruct (Z.leb_spec W (w0 p)); [lia|]. rewrite B. reflexivity. }
+    unfold aligned. rewrite E. destruct (keeps_tabs p) eqn:KT.
+    - rewrite set_sbv_same. unfold blockedb in B. apply andb_true_iff in B as [B1 B2].
+      unfold keeps_tabs in KT. apply andb_true_iff in KT as [K1 _].
+      destruct (is_nil (sbv p)); [discriminate|].
+      destruct (Z_le_gt_dec (valueColumn p) W) as [|Hgt]; [assumption|exfalso].
+      assert (width_with p (tabs_to W p) <= width_with p (sbv p)).
+      { apply width_with_mono. rewrite R. unfold valueColumn, w0 in *. lia. }
+      lia.
+    - unfold valueColumn. cbn [sbv set_sbv]. change (spaceBeforeValueColumn (set_sbv p [SP])) with (w0 p).
+      unfold twa0. simpl. lia. }
   (* W is below MaxInt *)
   assert (WB : W < MaxInt).
   { unfold W. rewrite optimalWidth_unfold, EV. cbn [fst snd].
     set (mn := fst (spaceWidths para out)). set (mx := snd (spaceWidths para out)).
     destruct ((mvow <? mn) && (mn =? mx) && (Z.rem mn 8 =? 0)) eqn:C.
-    - (* mn is the value column of some line, or the initial MaxInt (then mx = MinInt <> mn) *)
-      apply andb_true_iff in C as [C _]. apply andb_true_iff in C as [_ C2].
-      assert (G : forall l acc, fst acc <= MaxInt ->
-                (fst acc = MaxInt -> snd acc = MinInt) ->
-                Forall small l ->
-                let r := fold_left (sw_step out) l acc in
-                fst r <= MaxInt /\ (fst r = MaxInt -> snd r = MinInt)).
-      { induction l as [|p l IH]; intros acc A1 A2 Hs; simpl; [auto|].
-        inversion Hs as [|? ? Sp Sl]; subst.
-        apply IH; [| |exact Sl]; unfold sw_step; destruct (excluded out p); cbn [fst snd]; try assumption.
-        - destruct (Z.ltb_spec (valueColumn p) (fst acc)); lia.
-        - pose proof (valueColumn_le_width p). unfold small in Sp.
-          destruct (Z.ltb_spec (valueColumn p) (fst acc)); [unfold MaxInt in *; lia|]. intro.
-          unfold MaxInt in *. lia. }
-      destruct (G para (MaxInt, MinInt) ltac:(simpl; lia) ltac:(auto) SM) as [G1 G2].
-      cbn zeta in G1, G2. rewrite <- spaceWidths_fold in G1, G2. fold mn mx in G1, G2.
-      destruct (Z.eq_dec mn MaxInt) as [EM|]; [|lia].
-      specialize (G2 EM). unfold MaxInt, MinInt in *. lia.
+    - destruct (spaceWidths_attained out para (MaxInt, MinInt)) as [E|(p & Hp & X & E)];
+        cbn zeta in E; rewrite <- spaceWidths_fold in E; fold mn in E; cbn [fst] in E.
+      + exfalso. destruct (spaceWidths_bounds out para (MaxInt, MinInt)) as (_ & _ & Bd).
+        cbn zeta in Bd. rewrite <- spaceWidths_fold in Bd. fold mn mx in Bd.
+        specialize (Bd pe Hpe XPE). rewrite Forall_forall in SM. specialize (SM pe Hpe). unfold small in SM.
+        pose proof (valueColumn_le_width pe). unfold MaxInt in *. lia.
+      + rewrite E. rewrite Forall_forall in SM. specialize (SM p Hp). unfold small in SM.
+        pose proof (valueColumn_le_width p). unfold MaxInt in *. lia.
     - destruct (Z.eqb_spec mvow 0); [unfold MaxInt; lia|].
-      destruct (F1 pe Hpe) as [Le|Out]; [|tauto].
-      (* mvow is the width of some line *)
-      destruct (varnameOpWidths_facts para mvow out CS NE EV) as (_ & _ & _ & _ & (pm & Hpm & Em) & _).
       rewrite Forall_forall in SM. specialize (SM pm Hpm). unfold small in SM.
       pose proof (valueColumn_le_width pm). pose proof (w0_le_valueColumn pm).
       pose proof (Z.div_mod mvow 8 ltac:(lia)). pose proof (Z.mod_pos_bound mvow 8 ltac:(lia)).
       unfold MaxInt in *. lia. }
-  rewrite (spaceWidths_all_equal W).
-  - cbn [fst snd]. destruct (Z.ltb_spec mvow W); [|lia]. rewrite Z.eqb_refl. cbn [andb].
-    rewrite Z.rem_mod_nonneg by lia. rewrite Wm. reflexivity.
-  - unfold MinInt. lia.
-  - intros p' Hp' X. apply in_map_iff in Hp' as (p & <- & Hp).
-    apply aligned_reaches; [exact WP|exact Wm|].
-    destruct (F1 p Hp) as [Le|[Op Eo]]; [lia|].
-    exfalso. unfold excluded in X. apply orb_false_iff in X as [_ X].
-    change (spaceBeforeValueColumn (aligned W p)) with (w0 p) in X.
-    destruct (Z.ltb_spec 0 out); [|lia]. destruct (Z.eqb_spec (w0 p) out); [discriminate|lia].
-  - exists (aligned W pe). split; [apply in_map, Hpe|].
-    unfold excluded. rewrite Forall_forall in CS.
-    change (isEmptyContinuation (aligned W pe)) with (isEmptyContinuation pe).
-    rewrite (single_not_ec pe (CS pe Hpe)). cbn [orb].
-    change (spaceBeforeValueColumn (aligned W pe)) with (w0 pe).
-    destruct (Z.ltb_spec 0 out); [|reflexivity]. destruct (Z.eqb_spec (w0 pe) out); [tauto|reflexivity].
+  (* which branch of optimalWidth produced W *)
+  assert (BR : ((mvow <? fst (spaceWidths para out)) && (fst (spaceWidths para out) =? snd (spaceWidths para out))
+                && (Z.rem (fst (spaceWidths para out)) 8 =? 0) = true /\ W = fst (spaceWidths para out)
+                /\ W = snd (spaceWidths para out))
+               \/ (W = mvow / 8 * 8 + 8 /\ mvow <> 0)).
+  { assert (EW : W = optimalWidth para) by reflexivity. rewrite EW. rewrite optimalWidth_unfold, EV. cbn [fst snd].
+    destruct ((mvow <? fst (spaceWidths para out)) && (fst (spaceWidths para out) =? snd (spaceWidths para out))
+              && (Z.rem (fst (spaceWidths para out)) 8 =? 0)) eqn:C.
+    - left. split; [reflexivity|]. apply andb_true_iff in C as [C _]. apply andb_true_iff in C as [_ C]. lia.
+    - right. destruct (Z.eqb_spec mvow 0) as [Zm|]; [|split; [reflexivity|assumption]].
+      exfalso. unfold W in NZ. rewrite optimalWidth_unfold, EV in NZ. cbn [fst snd] in NZ.
+      rewrite C in NZ. rewrite Zm in NZ. apply NZ. reflexivity. }
+  rewrite optimalWidth_unfold, EV'. cbn [fst snd].
+  destruct BR as [(C & E1 & E2)|[E3 MNZ]].
+  - (* the paragraph was aligned at W already: no counting line is blocked, all stay at W *)
+    destruct (spaceWidths_bounds out para (MaxInt, MinInt)) as (_ & _ & Bd).
+    cbn zeta in Bd. rewrite <- spaceWidths_fold in Bd. rewrite <- E1, <- E2 in Bd.
+    rewrite (spaceWidths_all_equal W).
+    + cbn [fst snd]. destruct (Z.ltb_spec mvow W); [|lia]. rewrite Z.eqb_refl. cbn [andb].
+      rewrite Z.rem_mod_nonneg by lia. rewrite Wm. reflexivity.
+    + unfold MinInt. lia.
+    + intros p' Hp' X. apply in_map_iff in Hp' as (p & <- & Hp). rewrite XA in X.
+      pose proof (INC p Hp X) as Hlt. destruct (tabs_to_reaches W p WP Wm Hlt) as [R K].
+      apply aligned_reaches; try assumption.
+      assert (VC : valueColumn p = W) by (specialize (Bd p Hp X); lia).
+      assert (NB : sbv p <> []).
+      { intro Hn. unfold valueColumn in VC. rewrite Hn in VC. unfold twa0 in VC. simpl in VC. unfold w0 in Hlt. lia. }
+      unfold blockedb. apply is_nil_false in NB. rewrite NB.
+      assert (EQW : width_with p (sbv p) = width_with p (tabs_to W p)).
+      { unfold width_with. rewrite R. unfold valueColumn, w0 in *. rewrite VC. reflexivity. }
+      rewrite EQW. destruct (Z.leb_spec (width_with p (tabs_to W p)) 72); [|reflexivity].
+      destruct (Z.ltb_spec 72 (width_with p (tabs_to W p))); [lia|reflexivity].
+    + exists (aligned W pe). split; [apply in_map, Hpe|rewrite XA; exact XPE].
+  - (* W is the next tab stop after the widest name *)
+    set (mn' := fst (spaceWidths (map (aligned W) para) out)).
+    set (mx' := snd (spaceWidths (map (aligned W) para) out)).
+    destruct ((mvow <? mn') && (mn' =? mx') && (Z.rem mn' 8 =? 0)) eqn:C'.
+    + apply andb_true_iff in C' as [C' C3]. apply andb_true_iff in C' as [C1 C2].
+      assert (0 <= mn') by lia. rewrite Z.rem_mod_nonneg in C3 by lia.
+      assert (LEW : mn' <= W).
+      { destruct (spaceWidths_attained out (map (aligned W) para) (MaxInt, MinInt)) as [E|(p' & Hp' & X & E)];
+          cbn zeta in E; rewrite <- spaceWidths_fold in E; fold mn' in E; cbn [fst] in E.
+        - exfalso. destruct (spaceWidths_bounds out (map (aligned W) para) (MaxInt, MinInt)) as (_ & _ & Bd).
+          cbn zeta in Bd. rewrite <- spaceWidths_fold in Bd. fold mn' mx' in Bd.
+          specialize (Bd (aligned W pe) (in_map _ _ _ Hpe) XPE).
+          pose proof (COL pe Hpe XPE). lia.
+        - apply in_map_iff in Hp' as (p & <- & Hp). rewrite XA in X. rewrite E. apply COL; assumption. }
+      pose proof (Z.div_mod mvow 8 ltac:(lia)). pose proof (Z.mod_pos_bound mvow 8 ltac:(lia)).
+      pose proof (Z.div_mod mn' 8 ltac:(lia)). lia.
+    + destruct (Z.eqb_spec mvow 0) as [Zm|]; [contradiction|symmetry; exact E3].
 Qed.
 
 (* after one pass, a second pass changes nothing and logs nothing *)
@@ -624,14 +781,6 @@ Proof.
   rewrite V, C, SA. apply twa_mono, twa_mono, twa_mono, H.
 Qed.
 
-Lemma twa_ge_succ s w : s <> [] -> w + 1 <= twa w 0 s.
-Proof.
-  destruct s as [|c s]; [congruence|]. intros _. simpl. destruct (c =? TAB)%N.
-  - pose proof (twa_ge s (w / 8 * 8 + 8) 0%nat).
-    pose proof (Z.div_mod w 8 ltac:(lia)). pose proof (Z.mod_pos_bound w 8 ltac:(lia)). lia.
-  - pose proof (twa_ge s (w + 1) (pred (rune_size c s))). lia.
-Qed.
-
 (* the guard: the common column does not lie to the right of the line's present
    value column, and a line that sticks out has at least one blank already *)
 Definition not_shifted (W : Z) (p : parts) : Prop :=
@@ -642,16 +791,21 @@ Lemma aligned_not_wider W p : 0 <= W -> W mod 8 = 0 -> not_shifted W p ->
 Proof.
   intros HW Hm [G1 G2]. apply line_width_mono; [unfold aligned, same_core; cbn; auto|reflexivity|].
   destruct (Z.eq_dec W 0) as [->|NZ]; [rewrite aligned_zero; lia|].
-  destruct (Z_lt_le_dec (w0 p) W) as [Hlt|Hle].
-  - rewrite aligned_reaches by (assumption || lia). apply G1, Hlt.
-  - unfold aligned, new_sbv. destruct (Z.leb_spec W 0); [lia|]. destruct (Z.leb_spec W (w0 p)); [|lia].
-    destruct (isCanonicalInitial p W); [rewrite set_sbv_same; lia|].
-    unfold valueColumn. cbn [sbv set_sbv]. change (spaceBeforeValueColumn (set_sbv p [SP])) with (w0 p).
+  assert (SPC : sbv p <> [] -> valueColumn (set_sbv p [SP]) <= valueColumn p).
+  { intro NB. unfold valueColumn. cbn [sbv set_sbv]. change (spaceBeforeValueColumn (set_sbv p [SP])) with (w0 p).
     unfold twa0 at 1. simpl twa.
-    pose proof (twa_ge_succ (sbv p) (spaceBeforeValueColumn p) (G2 Hle)). unfold twa0, w0 in *. lia.
+    pose proof (twa_ge_succ (sbv p) (spaceBeforeValueColumn p) NB). unfold twa0, w0 in *. lia. }
+  destruct (Z_lt_le_dec (w0 p) W) as [Hlt|Hle].
+  - specialize (G1 Hlt). destruct (blockedb W p) eqn:B.
+    + unfold aligned, new_sbv. destruct (Z.leb_spec W 0); [lia|]. destruct (Z.leb_spec W (w0 p)); [lia|].
+      rewrite B. destruct (keeps_tabs p); [rewrite set_sbv_same; lia|].
+      apply SPC. intro Hn. unfold valueColumn in G1. rewrite Hn in G1. unfold twa0 in G1. simpl in G1. unfold w0 in Hlt. lia.
+    + rewrite aligned_reaches by (assumption || lia). exact G1.
+  - unfold aligned, new_sbv. destruct (Z.leb_spec W 0); [lia|]. destruct (Z.leb_spec W (w0 p)); [|lia].
+    destruct (isCanonicalInitial p W); [rewrite set_sbv_same; lia|]. apply SPC, G2, Hle.
 Qed.
 
-Theorem no_widen_72_partial para para' :
+Theorem no_widen_not_shifted para para' :
   Forall single_ok para -> para <> [] ->
   realign_lines para = Ok para' ->
   Forall2 (fun p p' => not_shifted (optimalWidth para) p -> line_width p' <= line_width p) para para'.
@@ -662,4 +816,39 @@ Proof.
   remember (optimalWidth para) as W eqn:EW. clear EW.
   clear S NE EV. induction para as [|p para IH]; simpl; constructor; [|exact IH].
   intro G. apply aligned_not_wider; assumption.
+Qed.
+
+(* with the patch: a line whose value is separated from the operator by at least one
+   blank is never pushed beyond column 72 *)
+Lemma line_width_plain p : sav p = [] -> cont p = [] -> line_width p = width_with p (sbv p).
+Proof. intros A C. unfold line_width, continuationColumn, spaceAfterValueColumn, width_with, valueColumn, w0. rewrite A, C. reflexivity. Qed.
+
+Lemma aligned_fits W p : 0 <= W -> W mod 8 = 0 -> sbv p <> [] -> sav p = [] -> cont p = [] ->
+  line_width p <= 72 -> line_width (aligned W p) <= 72.
+Proof.
+  intros HW Hm NB SA CO H72.
+  rewrite (line_width_plain (aligned W p)) by assumption. rewrite line_width_plain in H72 by assumption.
+  change (width_with (aligned W p)) with (width_with p). unfold aligned. cbn [sbv set_sbv].
+  pose proof (width_with_sp_le p NB) as SPLE.
+  unfold new_sbv. destruct (Z.leb_spec W 0); [exact H72|].
+  destruct (Z.leb_spec W (w0 p)).
+  - destruct (isCanonicalInitial p W); lia.
+  - destruct (blockedb W p) eqn:B.
+    + destruct (keeps_tabs p); lia.
+    + unfold blockedb in B. apply is_nil_false in NB. rewrite NB in B.
+      destruct (Z.leb_spec (width_with p (sbv p)) 72); [|lia]. cbn [andb] in B.
+      destruct (Z.ltb_spec 72 (width_with p (tabs_to W p))); [discriminate|lia].
+Qed.
+
+Theorem no_widen_72_partial para para' :
+  Forall single_ok para -> para <> [] ->
+  realign_lines para = Ok para' ->
+  Forall2 (fun p p' => sbv p <> [] -> sav p = [] -> line_width p <= 72 -> line_width p' <= 72) para para'.
+Proof.
+  intros S NE H. rewrite realign_lines_spec in H by assumption. inversion H; subst; clear H.
+  destruct (varnameOpWidths para) as [mvow out] eqn:EV.
+  destruct (optimalWidth_facts para mvow out (conts_of para S) NE EV) as (W0 & Wm & _).
+  remember (optimalWidth para) as W eqn:EW. clear EW. clear NE EV.
+  induction S as [|p para [Cp _] _ IH]; simpl; constructor; [|exact IH].
+  intros NB SA. apply aligned_fits; assumption.
 Qed.
